@@ -77,7 +77,7 @@ func monitor(rep *emit.Report, c *caseRun) {
 			nEp++
 		}
 		if s.ev.Kind == "stop" || s.ev.Kind == "restart" {
-			pendingCatch, lastTick = nil, 0       // sleepers die with the handler; the new one has seen no tick
+			pendingCatch, lastTick = nil, 0         // sleepers die with the handler; the new one has seen no tick
 			contrib = map[[2]int64]map[int][]byte{} // the partial cache does not survive a restart
 			if s.ev.Kind == "restart" {
 				// the restarted process loads the latest group
@@ -144,8 +144,9 @@ func monitor(rep *emit.Report, c *caseRun) {
 		}
 		// C04: partial for a round beyond clock+1 must be refused
 		if s.ev.Kind == "part" {
-			cur := common.CurrentRound(s.obs.Now, per, w.Genesis)
-			if s.ev.Round > cur+1 && !s.obs.Rejected {
+			// the round after the one the clock is in (before genesis no round has started: that is round 1)
+			next, _ := common.NextRound(s.obs.Now, per, w.Genesis)
+			if s.ev.Round > next && !s.obs.Rejected {
 				rep.Fail("C04-future-partial-accepted", "partial more than one round ahead of the clock was not refused", in)
 			}
 			// C03: a partial whose index no member holds, in any group the node has ever been given,
